@@ -438,7 +438,7 @@ long long c_accumulate(long long nrows, long long ncols,
             }
 
             /* Get accumulated value */
-            accvalue = to_accumulate[idxdown[0]];
+            accvalue = to_accumulate[i];
 
             /* Increase flow accumulation at downstream cell */
             accumulation[idxdown[0]] += accvalue;
